@@ -288,7 +288,17 @@ class Gen(object):
             if mode == 'min':
                 return L([])
             n = 1 if mode == 'one' else rng.choice([0, 1, 2, 3, 5] if depth < 2 else [0, 1, 2])
-            return L([self.gen(f[1], mode if mode != 'max' else 'rand', t, depth + 1) for _ in range(n)])
+            items = [self.gen(f[1], mode if mode != 'max' else 'rand', t, depth + 1) for _ in range(n)]
+            if f[1][0] == 'T':
+                # an extension block never carries the same extension type twice (RFC 8446 4.2):
+                # a well-formed value has distinct tags
+                seen, uniq = set(), []
+                for it in items:
+                    if it[1][1] not in seen:
+                        seen.add(it[1][1])
+                        uniq.append(it)
+                items = uniq
+            return L(items)
         if k == 'O':
             if (mode == 'min' or (mode == 'rand' and rng.random() < 0.2)) and t not in self.no_none_tags:
                 return NONE
@@ -351,6 +361,17 @@ def fill(gen, f, target, t=0):
     k = f[0]
     if k == 'R':
         return B(gen.rb(target))
+    if k == 'T':
+        # one item with a tag that has no dedicated format (kept as opaque bytes), body sized to fit
+        keys, dflt = case_keys(f[2])
+        used = set(kk for kk, _ in keys) | set(gen.avoid_tags)
+        tag = next(x for x in range(256 ** f[1] - 1, -1, -1) if x not in used)
+        body = fill(gen, dflt, target - f[1], tag) if target >= f[1] else None
+        return None if body is None else P(N(tag), body)
+    if k == 'M' and f[1][0] == 'T':
+        # distinct tags required: one big item
+        x = fill(gen, f[1], target, t)
+        return None if x is None else L([x])
     if k == 'M':
         item_min = gen.gen(f[1], 'min', t)
         sz = enc_len(f[1], item_min, t)
